@@ -91,9 +91,12 @@ func (p *Program) info(fn *ssa.Function) *funcInfo {
 
 // Exec is one worker's mutable state.
 type Exec struct {
-	prog   *Program
-	ctx    *sym.Ctx
-	solver *sym.Solver
+	prog           *Program
+	ctx            *sym.Ctx
+	solver         *sym.Solver
+	solver2        *sym.Solver // optional second solver re-discharging assertion queries
+	Solver2Queries int64
+	Solver2Unknown int64
 
 	persistGlobals map[*ssa.Global]*value
 	pathGlobals    map[*ssa.Global]*value
